@@ -3,6 +3,7 @@ _DX_SAN = {"src": "checks/dx.cpp", "mode": "msgpack", "arduino": True, "deps": _
 _DX_LEN4 = {"src": "checks/dx.cpp", "mode": "msgpack", "arduino": True, "deps": _DX_DEPS, "defs": ["ARDUINOJSON_STRING_LENGTH_SIZE=4"]}
 _DX_BIG = {"src": "checks/dx.cpp", "mode": "msgpack-big", "flavour": "fast", "arduino": True, "deps": _DX_DEPS, "shards": 8, "hang_s": 600}
 _DX_NODOUBLE = {"src": "checks/dx.cpp", "mode": "msgpack", "arduino": True, "deps": _DX_DEPS, "defs": ["ARDUINOJSON_USE_DOUBLE=0"]}
+_DX_NOLONGLONG = {"src": "checks/dx.cpp", "mode": "msgpack", "arduino": True, "deps": _DX_DEPS, "defs": ["ARDUINOJSON_USE_LONG_LONG=0"]}
 _DX_FLOATS = {"src": "checks/dx.cpp", "mode": "msgpack-floats", "flavour": "fast", "arduino": True, "deps": _DX_DEPS}
 
 PROPS["C08"] = {
@@ -23,7 +24,7 @@ PROPS["C08"] = {
                     "bin/ext 'verbatim' = the emitted object is byte-identical to what the document retains, and the independent decoder sees the payload and type given to the API",
                     "maps of >= 65534 members are built by deserializeMsgPack from a reference encoding (member-by-member construction is quadratic; thorough also builds 65535 and 65536 through the API), -O2 build without sanitizers",
                     "an Arduino String destination is only exercised for outputs without a NUL byte"],
-    "quick": [_DX_SAN, _DX_BIG, _DX_LEN4, _DX_NODOUBLE],
-    "thorough": [_DX_SAN, _DX_BIG, _DX_LEN4, _DX_FLOATS],
+    "quick": [_DX_SAN, _DX_BIG, _DX_LEN4, _DX_NODOUBLE, _DX_NOLONGLONG],
+    "thorough": [_DX_SAN, _DX_BIG, _DX_LEN4, _DX_FLOATS, _DX_NODOUBLE, _DX_NOLONGLONG],
     "thorough_deadline": 840,
 }
